@@ -116,6 +116,11 @@ def all_shapes(tier, seed):
         for op in ('<<', '>>', 'a>>', '<<<', '>>>'):
             out.append(('wide:inrange:%s:w%d' % (op, w), T.O(op, a, cnt)))
         out.append(('wide:const-slice:w%d' % w, "ExprSlice(%s, %d, %d)" % (T.C(((0xC000A1B2C3D4E5F60718 << w) >> 80) | 0x5a, w), w - 8, w)))
+    # the widest big numbers (every word of bn_t in use): products by constants keep the loops of bignum_mul concrete
+    a256 = T.I('a', BN_BITS)
+    out.append(('wide:mul-const:w256:c1', T.O('*', a256, T.C(1, BN_BITS))))
+    out.append(('wide:mul-const:w256:c100000001', T.O('*', a256, T.C(0x100000001, BN_BITS))))
+    out.append(('wide:add:w256', T.O('+', a256, T.I('b', BN_BITS))))
     # rcl/rcr rotate a register extended by the carry: widths 9, 17 and 33 have their own cases in rot_left/rot_right
     for w in (9, 17, 33):
         a, bb = T.I('a', w), T.I('b', w)
